@@ -342,6 +342,7 @@ fn generate(rng: &mut Rng) -> ConnScenario {
         wplan: vec![],
         cap_ns: secs(120),
         prelude: vec![],
+        growth: None,
     };
     zero_time_noise(rng, &mut sc);
     // whole scripts in one burst: every frame is in the pipe before the server reads the first
